@@ -92,6 +92,10 @@ def build(prop, need_harness=True):
                 r.failed_obligations.append("translator:" + (out + err).strip().split("\n")[-1][:200])
         # 2. lean
         targets = ["jmodel", "Jamm.Props.%s" % prop] + (["japi"] if prop == "C14" else [])
+        if prop == "C09":
+            # built on its own, after the rest: when the step tables could not be regenerated (or no longer
+            # give ordered programs) the search executable may not build; that is reported by the runner
+            sh(["lake", "build", "jlocks"], cwd=LEAN, timeout=3000)
         rc, out, err, dt = sh(["lake", "build"] + targets, cwd=LEAN, timeout=3000)
         if rc != 0:
             r.ok = r.lean_ok = False
